@@ -209,10 +209,14 @@ impl Mp4Track {
 
     pub fn duration(&self) -> Duration {
         // a timescale of 0 is meaningless; report a zero duration rather than divide by it
-        let micros = (self.trak.mdia.mdhd.duration as u128 * 1_000_000)
-            .checked_div(self.trak.mdia.mdhd.timescale as u128)
-            .unwrap_or(0);
-        Duration::from_micros(u64::try_from(micros).unwrap_or(u64::MAX))
+        let timescale = self.trak.mdia.mdhd.timescale as u64;
+        if timescale == 0 {
+            return Duration::from_micros(0);
+        }
+        // whole seconds exactly (a Duration holds 64 bits of them), the rest in microseconds
+        let duration = self.trak.mdia.mdhd.duration;
+        let micros = (duration % timescale) as u128 * 1_000_000 / timescale as u128;
+        Duration::new(duration / timescale, micros as u32 * 1000)
     }
 
     pub fn bitrate(&self) -> u32 {
